@@ -535,6 +535,70 @@ M('c20-trim-after-expansion', 'C20', 'src/extensions/qconfig.c',
   'B9', 'qconfig_parse_str', 'raw value no longer trimmed before the expansion')
 
 
+# ---- C02 -------------------------------------------------------------------------------------
+M('c02-rotate-left-colour', 'C02', 'src/containers/qtreetbl.c',
+  "    x->left = obj;\n    x->red = x->left->red;\n    x->left->red = true;\n    _q_treetbl_rotate_left_cnt++;",
+  "    x->red = obj->right->red;\n    x->left = obj;\n    x->left->red = true;\n    _q_treetbl_rotate_left_cnt++;",
+  'ROT', 'rotate_left', 'new root takes the colour of its old left child instead of the old root')
+M('c02-rotate-right-no-red', 'C02', 'src/containers/qtreetbl.c',
+  "    x->right = obj;\n    x->red = x->right->red;\n    x->right->red = true;",
+  "    x->right = obj;\n    x->red = x->right->red;",
+  'ROT', 'rotate_right', 'old root not made red')
+M('c02-flip-only-children', 'C02', 'src/containers/qtreetbl.c',
+  "    obj->red = !(obj->red);\n    obj->left->red = !(obj->left->red);",
+  "    obj->left->red = !(obj->left->red);",
+  'ROT', 'flip_color', 'colour flip leaves the parent alone')
+M('c02-rotate-left-returns-old-root', 'C02', 'src/containers/qtreetbl.c',
+  "    _q_treetbl_rotate_left_cnt++;\n    return x;",
+  "    _q_treetbl_rotate_left_cnt++;\n    return obj;",
+  'ROT', 'rotate_left', 'old subtree root returned')
+M('c02-fix-result-dropped', 'C02', 'src/containers/qtreetbl.c',
+  "        obj = rotate_left(obj);\n    }\n    // rotate left red-red to right",
+  "        rotate_left(obj);\n    }\n    // rotate left red-red to right",
+  'T3', 'fix', 'rotation result not stored back')
+
+
+# ---- C03 -------------------------------------------------------------------------------------
+M('c03-wrap-not-purged', 'C03', 'src/containers/qtreetbl.c',
+  "        clear_tids(tbl->root);\n        tbl->tid = 1;",
+  "        tbl->tid = 1;",
+  'T11', 'reset_iterator', 'wrap detected but the marks of the nodes are kept')
+M('c03-wrap-not-detected', 'C03', 'src/containers/qtreetbl.c',
+  "    if (++tbl->tid == 0) {",
+  "    ++tbl->tid;\n    if (tbl->root == NULL) {",
+  'T11', 'reset_iterator', 'the wrap of the 8-bit id is no longer detected')
+M('c03-purge-left-only', 'C03', 'src/containers/qtreetbl.c',
+  "    clear_tids(obj->left);\n    clear_tids(obj->right);\n    obj->tid = 0;",
+  "    clear_tids(obj->left);\n    obj->tid = 0;",
+  'T11', 'reset_iterator', 'the purge visits left subtrees only')
+M('c03-stamp-before-copy', 'C03', 'src/containers/qtreetbl.c',
+  "        } else if (cursor->tid != tid) {\n            void *name = cursor->name;",
+  "        } else if (cursor->tid != tid) {\n            cursor->tid = tid;\n            void *name = cursor->name;",
+  'T10', 'qtreetbl_getnext', 'node stamped as visited before the fallible copies')
+M('c03-search-bumps-epoch', 'C03', 'src/containers/qtreetbl.c',
+  "        // carry a stale pointer from an earlier walk or search.\n        tbl->root->next = NULL;",
+  "        // carry a stale pointer from an earlier walk or search.\n        reset_iterator(tbl);",
+  'T7', 'qtreetbl_find_nearest', 'a search advances the traversal id')
+
+
+M('c15-ctor-range-early', 'C15', 'src/containers/qhashtbl.c',
+  "    // allocate table space\n    tbl->slots = (qhashtbl_obj_t **) calloc(range, sizeof(qhashtbl_obj_t *));",
+  "    // allocate table space\n    tbl->range = range;\n    tbl->num = 1;\n    tbl->slots = (qhashtbl_obj_t **) calloc(range, sizeof(qhashtbl_obj_t *));",
+  'A9', 'qhashtbl', 'both guards of the clean-up walk set before the slot array exists')
+M('c18-md5file-static-buffer', 'C18', 'src/utilities/qhash.c',
+  "    unsigned char buf[32 * 1024];\n    for (toread = nbytes;",
+  "    static unsigned char buf[32 * 1024];\n    for (toread = nbytes;",
+  'H9', 'qhashmd5_file', 'read buffer shared between calls and threads')
+M('c07-findavail-raw-stop', 'C07', 'src/containers/qhasharr.c',
+  "    if (startidx >= tbldata->maxslots)\n        startidx = 0;\n\n    int idx = startidx;",
+  "    int idx = (startidx >= tbldata->maxslots) ? 0 : startidx;",
+  'I12', 'find_avail', 'ring walk compares the wrapped cursor with the raw start index')
+M('c06-findavail-raw-stop', 'C06', 'src/containers/qhasharr.c',
+  "    if (startidx >= tbldata->maxslots)\n        startidx = 0;\n\n    int idx = startidx;",
+  "    int idx = (startidx >= tbldata->maxslots) ? 0 : startidx;",
+  'I12', 'find_avail', 'ring walk compares the wrapped cursor with the raw start index')
+
+
 def run_selftest(prop, rep, rule_fn, config='cmake-release'):
     """Apply every mutant of `prop` to a scratch copy, run rule_fn(prog, report) on it, and
     require a finding of the expected rule (and function)."""
